@@ -334,8 +334,14 @@ impl GraphEngine {
     pub fn insert_vector(&self, id: InternalNodeId, vector: Vec<f32>) -> Result<()> {
         // Lock order as in `commit`: catalog, then pager.
         let mut catalog = self.index_catalog.lock().unwrap();
+        #[cfg(nervusdb_verif)]
+        crate::verif_sched::point("lock.insert_vector.index_catalog");
         let mut pager = self.pager.write().unwrap();
+        #[cfg(nervusdb_verif)]
+        crate::verif_sched::point("lock.insert_vector.pager");
         let mut idx = self.vector_index.lock().unwrap();
+        #[cfg(nervusdb_verif)]
+        crate::verif_sched::point("lock.insert_vector.vector_index");
         idx.insert(&mut *pager, id, vector)?;
 
         // The two system B-trees are reloaded from the catalog on open: when an insert split a
@@ -357,7 +363,11 @@ impl GraphEngine {
         let runs = self.published_runs.read().unwrap().clone();
         let tombstoned = crate::read_path_tombstones::collect_tombstoned_nodes(&runs);
         let mut pager = self.pager.write().unwrap();
+        #[cfg(nervusdb_verif)]
+        crate::verif_sched::point("lock.search_vector.pager");
         let mut idx = self.vector_index.lock().unwrap();
+        #[cfg(nervusdb_verif)]
+        crate::verif_sched::point("lock.search_vector.vector_index");
         let mut hits = idx.search(&mut *pager, query, k.saturating_add(tombstoned.len()))?;
         hits.retain(|(id, _)| !tombstoned.contains(id));
         hits.truncate(k);
